@@ -40,4 +40,65 @@ CHECKS = {
        'appear nowhere and are never requested, pixels > 1 px outside a limit are transparent/bgcolor, pixels > 2 px inside keep their colour, feature info only inside.',
   note='Exploration, not exhaustive. Leaks thinner than ~1 px (3 px for JPEG responses) are invisible; "well inside" is 2 px because the mask is mitred by design; '
        'capabilities filtering, legends and the demo service are not judged.'),
+ 'C02': dict(
+  category='exploration',
+  design_ref='DESIGN.md section 3',
+  technique='property-based differential testing against a standards-following reference client (reads only the served capabilities/KML documents) with a ground-function pixel oracle, plus cross-service metamorphic equality',
+  text='Hypothesis-generated grid, coverage and service configurations are loaded as real WSGI apps. A reference client written from the TMS 1.0.0 / WMTS 1.0.0 / WMS-C / KML '
+       'conventions reads only the served documents; for drawn advertised addresses on all levels (corners, edges, interior, first/last row and column) the served pixels must show '
+       'an analytic, level-dependent ground over the rectangle the client computes (rho 1 px, eps 3). The same ground tile must be pixel-identical through every service and origin '
+       'convention, and the documents must agree on resolutions.',
+  note='About 320 configurations and 16k tile evaluations per quick run. The y-flip limitation documented in doc/configuration.rst (grid origin) is honoured and counted: when a flip does '
+       'not preserve rectangles only the native-origin service is judged. Displacements below ~1.5-2 px are invisible to the pixel oracle; tiles crossing a coverage edge are not judged.'),
+ 'C04': dict(
+  category='exploration',
+  design_ref='DESIGN.md section 5',
+  technique='Hypothesis property-based differential testing of a real TileManager with an analytic ground-function source, a recording cache and an exact-rational reference grid',
+  text='About 5k (quick) / 190k (thorough) generated (grid, two cache settings, 1-3 requests) cases run on a real TileManager (real WMSSource/TiledSource with a synthetic client) and a '
+       'recording cache. Every stored and served tile is compared with the rendering of its own bbox - exactly (<= 0.5 level rounding) when no buffer is cut off, within 1 px otherwise, with '
+       'no background more than 1 px inside the extent. Tiles are compared across the two settings (alone / meta size / buffer / minimised / bulk / threaded), and the upstream/store log against a reference plan.',
+  note='No exhaustive part. PNG non-paletted caches only; thread interleavings are whatever the OS produces; an over-fetching meta size at small levels is not observable (equivalent mutant).'),
+ 'C05': dict(
+  category='exploration',
+  design_ref='DESIGN.md section 6',
+  technique='model-based stateful property testing (Hypothesis RuleBasedStateMachine vs dict model) + bounded-exhaustive operation-sequence enumeration + generated bulk batches crossing the 999-argument split',
+  text='Hypothesis state machines run histories of up to 30 (thorough 40) operations (store, bulk store, load, bulk load, is_cached, remove, reopen) against each of 42 loader-built backend '
+       'variants (file x 6 layouts x link modes x dimensions, mbtiles, per-level sqlite, geopackage, per-level geopackage, compact v1/v2) and compare with a dict model, with a full read-back of '
+       'the collision address pool through load_tile / is_cached / load_tiles after every operation. All 3-operation sequences (thorough: 4 for the plain file layouts) over 4-address collision '
+       'pools are enumerated completely per variant.',
+  note='Exploration plus exhaustive small scope. One cache object at a time (no concurrency, no crashes - see C06/C08); metadata (timestamp, size) is not judged; only backends that work offline.'),
+ 'C13': dict(
+  category='exploration',
+  design_ref='DESIGN.md section 14',
+  technique='Hypothesis RuleBasedStateMachine + reference model + virtual clock + synthetic version-encoding upstream; bounded shrink; replay JSON',
+  text='Stateful model-based exploration: generated histories of requests (single, meta, minimised, bulk), clock advances, threshold changes (absolute, relative, mtime of a file, seed-task '
+       'threshold, cache-level refresh_before through the real config loader) and upstream failures run against real TileManagers on file, sqlite and mbtiles caches under a virtual clock. After '
+       'every step the upstream call log, the served content version and all stored tile slots are compared with a reference model; the same-second band is accepted either way.',
+  note='~4.1k histories / 145k steps quick. UTC only, concurrent_tile_creators=1, sqlite ttl option not exercised; the multiprocess seeder is mimicked by pre-check + load_tile_coords.'),
+ 'C17': dict(
+  category='exploration',
+  design_ref='DESIGN.md section 18',
+  technique='Hypothesis-generated configurations and requests, synthetic upstream logging decoded calls, thread-local wrapper around Source.get_map, pyproj/shapely oracle independent of the code under test',
+  text='Per quick run ~960 generated MapProxy configurations (WMS sources with supported_srs/preferred_src_proj, formats, bbox/polygon coverages, res/scale ranges, forwarded params; tile sources '
+       'on grids differing from the cache grid; direct, cached and cascaded layers) x ~11000 WMS 1.1.1/1.3.0, TMS and WMTS requests placed around coverage edges and resolution limits. Every '
+       'upstream URL and every source.get_map invocation is judged against the configuration and the documentation (SRS and format lists, bbox inside the coverage, forwarded dimensions, in-grid tile '
+       'addresses, no call at all for disjoint coverage / excluded resolution).',
+  note='Oracle slack 1e-9 same SRS / 1e-6 reprojected, 1 px, alias-lenient; thread schedules are not controlled except in one regression case; ~10 % of generated requests end in '
+       'MapProxy-internal HTTP 500s and explore nothing (counted).'),
+ 'C19': dict(
+  category='exploration',
+  design_ref='DESIGN.md section 20',
+  technique='Hypothesis RuleBasedStateMachine + independent numpy/struct parser of the Esri bundle v1/v2 formats as reference model; before/after comparison around defrag; hand-kept >16 MB regression histories',
+  text='Generated store/overwrite/remove/remove-level/reopen/defrag histories over CompactCacheV1 and V2 are checked after every step by an independent parser of both bundle formats against a dict '
+       'model (entry empty or a complete record inside the file with matching size, header file size equals actual size, exact bytes, no phantom tiles); around each defragmentation (generated '
+       'min-percent/min-bytes incl. 0, dry-run) every address must return the same bytes, no file may grow or appear, no tmp_defrag residue.',
+  note='Single writer only; no crash or interruption of defrag (C06 covers crashes of stores); tiles < 16 MB; offsets >= 2^32 not reached.'),
+ 'C20': dict(
+  category='exploration',
+  design_ref='DESIGN.md section 21',
+  technique='Hypothesis RuleBasedStateMachine at WSGI level with virtual clock, synthetic upstream with error injection, direct store observation, independent HTTP-date parser, probe-based current-validator oracle',
+  text='Generated request / rewrite / clock / outage histories against a real WSGI app (file + sqlite caches, meta- and single-tile creation, TMS, WMTS KVP/REST, KML, WMS-C) with generated '
+       'conditional headers (current / historical / garbage ETags, older / current / newer / malformed / pre-1970 dates). After every step the tile is read back from the backend and every response is '
+       'checked against the four clauses of the property (stable validators and body, 304 for the current ETag, 304 only if a presented validator matches the stored tile, no-store for uncacheable fill tiles).',
+  note='~2000 histories / 35000 judged requests per quick run. Single process, TZ=UTC; rewrites that change neither second nor size on sqlite are outside the oracle ((timestamp, size) ETags cannot distinguish them).'),
 }
